@@ -261,3 +261,15 @@ func verifLemmaPathsRoundTrip(data []byte) []byte {
 	}
 	return out
 }
+
+func verifLemmaResponsesRoundTrip(data []byte) []byte {
+	var v Responses
+	if err := v.UnmarshalJSON(data); err != nil {
+		return nil
+	}
+	out, err := v.MarshalJSON()
+	if err != nil {
+		return nil
+	}
+	return out
+}
